@@ -39,10 +39,12 @@ def full3J (x : List (List (List LogP))) : Json := listJ (listJ (listJ lpJ)) x
 
 def itemJ (e : Item) : Json := objJ [("key", listJ intJ e.key), ("logp", lpJ e.logp), ("logb", lpJ e.logb)]
 
-/-- What the caller sees of the table it handed over (list object 0, dict objects 0 … n-1). -/
-def callerJ (m : Mem) (n : Nat) : Json := objJ [
+/-- What the caller sees of the table it handed over: list object 0 and the dict objects it had put there
+(`addrs0`: their addresses, position by position – `0 … n-1` unless the caller put one dict object at
+several positions). -/
+def callerJ (m : Mem) (addrs0 : List Nat) : Json := objJ [
   ("outer_len", natJ (m.list 0).length),
-  ("dicts", listJ (listJ itemJ) ((List.range n).map m.dict))]
+  ("dicts", listJ (listJ itemJ) (addrs0.map m.dict))]
 
 /-- The Katz recursion on a raw table for every position of every history. -/
 def specFullOf (dicts : List (List Item)) (V : Nat) (sos : Int) (B : Nat) (hist : List (List Int)) :
@@ -52,7 +54,7 @@ def specFullOf (dicts : List (List Item)) (V : Nat) (sos : Int) (B : Nat) (hist 
     PdtVerif.Backoff.row tbl V (PdtVerif.Backoff.context dicts.length sos (col hist bb) t)))
 
 /-- Later constructions from the SAME table object: `{sos, destructive, hist}` each. Threads the heap. -/
-def runSteps (V B n0 : Nat) (raw : List (List Item)) : Mem → List (Int × Bool × List (List Int)) → List Json
+def runSteps (V B : Nat) (n0 : List Nat) (raw : List (List Item)) : Mem → List (Int × Bool × List (List Int)) → List Json
   | _, [] => []
   | m, (sos, d, hist) :: rest =>
     let now := m.table 0
@@ -70,7 +72,8 @@ def runSteps (V B n0 : Nat) (raw : List (List Item)) : Mem → List (Int × Bool
 
 /-- case: {V, sos, dicts: [[{key, logp, logb?}..]..], B, hist: [[..]..] (T rows of B),
 chunks: [c..], idxs: [[i..]..], view?: {storage: [..], off, sT, sB}, destructive?: bool,
-steps?: [{sos, destructive, hist}]}.
+steps?: [{sos, destructive, hist}], addrs?: [a..] (the dict object at every position of the caller's list:
+absent = `0 … n-1`, all distinct; `[0, 0, 2]` = ONE dict object put at positions 0 and 1)}.
 The construction is the procedure `buildTrieMem` on a heap that holds the caller's table; the later
 `steps` construct again from the same table object.
 Reply: {build: null | buffers, table_after, steps: [..], shape, full, chunk_agree: [bool], byidx_agree,
@@ -96,8 +99,16 @@ def c06Table : Handler := fun c => do
         let h ← getList (jsonToList jsonToInt) sj "hist"
         pure (s, d, h))
     | some _ => throw "steps: expected a list"
-  let n0 := dicts.length
-  let first := buildTrieMem destructive V sos (Mem.ofTable dicts) 0
+  -- the caller's heap: dict objects `0 … n-1`, list object 0 = the table (its elements: `addrs`)
+  let n0 ← match fieldOpt c "addrs" with
+    | none => pure (List.range dicts.length)
+    | some _ => getNatList c "addrs"
+  if n0.length ≠ dicts.length ∨ n0.any (fun a => decide (dicts.length ≤ a)) then
+    throw "addrs: expected one valid dict address per position"
+  let mem0 : Mem := ⟨dicts, [n0]⟩
+  -- from here on `dicts` is what the table reference SHOWS (= the objects' contents, position by position)
+  let dicts := mem0.table 0
+  let first := buildTrieMem destructive V sos mem0 0
   let stepsJ := runSteps V B n0 dicts first.2 steps
   let after := [("table_after", callerJ first.2 n0), ("steps", Json.arr stepsJ.toArray)]
   match first.1 with
